@@ -15,6 +15,14 @@ type output struct {
 	declsByName   map[string]*codegen.TypeDecl
 	declsBySchema map[*schemas.Type]*codegen.TypeDecl
 	warner        func(string)
+
+	// inProgress holds the declarations whose type is being generated, innermost last.
+	inProgress []*codegen.TypeDecl
+}
+
+// isInnermost reports whether d is the declaration whose type is being generated right now.
+func (o *output) isInnermost(d *codegen.TypeDecl) bool {
+	return len(o.inProgress) > 0 && o.inProgress[len(o.inProgress)-1] == d
 }
 
 func (o *output) getDeclByEqualSchema(name string, t *schemas.Type) *codegen.TypeDecl {
@@ -52,7 +60,11 @@ func (o *output) isUniqueTypeName(name string) bool {
 func (o *output) uniqueTypeName(name string) string {
 	v, ok := o.declsByName[name]
 
-	if !ok || (ok && v.Type == nil) {
+	// A declaration without a type is a placeholder of a type that is still being generated. The type
+	// it resolves to (e.g. the merged allOf/anyOf schema) takes over its name; any other schema met
+	// further down - a definition whose name normalises to the same identifier - needs a name of its
+	// own, or the name would be declared twice.
+	if !ok || (v.Type == nil && o.isInnermost(v)) {
 		return name
 	}
 
